@@ -6,7 +6,7 @@ LEAN_PROPS = "Tahoe.Props.C06"
 DRIVER = "C06"
 GENERATED = []
 SOURCES = ["src/allmydata/immutable/upload.py", "src/allmydata/immutable/encode.py", "src/allmydata/immutable/layout.py",
-           "src/allmydata/util/happinessutil.py", "src/allmydata/storage/immutable.py"]
+           "src/allmydata/util/happinessutil.py", "src/allmydata/storage/immutable.py", "src/allmydata/storage/server.py"]
 DESIGN_REF = "DESIGN.md §2 C06"
 TECHNIQUE = ("Lean 4 invariant proofs over a model of the upload decision: selector test, CHKUploader.set_shareholders (with its "
              "assertion), the Encoder push phase as a state machine over shareholder-loss events (_remove_shareholder recomputing "
@@ -25,13 +25,16 @@ LEVEL_TEXT = ("Proved for every pre-existing layout, allocation, failure script 
 LEVEL_NOTE = ("Lean kernel + standard axioms; the happiness function is C08's model of servers_of_happiness (proved there to be the "
               "maximum matching number), abstract in the bookkeeping theorems; hand-written model; real uploads run on harness/grid.py "
               "with fault hooks.")
-RULE = ("seeded grids (1..8 servers, read-only/full/erroring servers, pre-existing shares from an earlier upload) x k/happy/N x file sizes; "
-        "faults = error on the i-th call of allocate_buckets/write/close per server. A case is one upload; distinct = distinct "
+RULE = ("fixed corpus (one scenario per known mechanism) first; seeded grids (1..8 servers, read-only/full/erroring servers, pre-existing shares from an earlier upload) x k/happy/N x file sizes; "
+        "faults = error on the i-th call of allocate_buckets/write/close per server; concurrent family: two uploads of the same file, the first "
+        "frozen between allocation and close, then timed out / disconnected / failed / completed. A case is one upload; distinct = distinct "
         "(grid shape, fault script, outcome); non-trivial = at least one fault fired or a pre-existing share was found or the outcome is unhappy.")
 TRUSTED = ["harness/grid.py fault hooks",
            "observation hooks in harness/props/c06.py (CHKUploader.set_shareholders, Encoder.set_shareholders/_remove_shareholder, "
            "Tahoe2ServerSelector._failed, WriteBucketProxy._actually_write): pass-through wrappers"]
 ASSUMPTIONS = ["bucket writer abort deletes the incoming share, only close makes it visible (C22)",
+               "the pre-existing shares handed to the model are complete shares: get_buckets / alreadygot name final shares only (C22); "
+               "monitored on concurrent uploads of the same file",
                "the happiness function of the code is the one of the model (cross-checked: driver's soh vs happinessutil on every case, and C08)"]
 
 
@@ -130,8 +133,57 @@ def scenario_from(d):
     s = Scenario()
     s.batch = None
     s.__dict__.update(d)
-    s.faults = [tuple(f) for f in s.faults]
+    s.faults = [tuple(f) for f in getattr(s, "faults", [])]
     return s
+
+
+def model_line(ctx, happy, rec, enc, res, outcome, ids, disk, pre_present):
+    """the driver line replaying what was recorded of one upload, and what the code did (to compare with the model)"""
+    line, want = None, None
+
+    def sm_tok(sm, sep=","):
+        return sep.join("%d:%s" % (sh, ".".join(map(str, ps))) for sh, ps in sorted(sm.items())) or "-"
+    new_visible = sorted((i, sh) for sh, srvs in disk.items() for i in srvs if (i, sh) not in pre_present)
+    if rec["landlords"] is not None and rec["alloc"] is not None and outcome in ("success", "unhappy"):
+        if any((p, sh) in pre_present or p in rec["already"].get(sh, ()) for (sh, p) in rec["alloc"]):
+            ctx.count("server-allocated-a-share-it-already-reported")     # excluded by hypothesis `hdis`
+        pre_tok = sm_tok(rec["already"])
+        alloc_tok = ",".join("%d:%d" % (sh, p) for sh, p in rec["alloc"]) or "-"
+        phases, closes = [], []
+        cur_where = None
+        for (sh, where, kind) in rec["removed"]:
+            ctx.count("loss-event:" + ("close-" + kind if where == "close" else "write-phase"))
+            if where == "close":
+                closes.append("%s%d" % (kind, sh))
+                continue
+            if where != cur_where:
+                phases.append([])
+                cur_where = where
+            phases[-1].append(sh)
+        ph_tok = "/".join(".".join(map(str, p)) for p in phases) or "-"
+        line = "up %d %s %s %s %s" % (happy, pre_tok, alloc_tok, ph_tok, ",".join(closes) or "-")
+        if outcome == "success":
+            final_sm = {sh: sorted(ids[p] for p in ps) for sh, ps in enc.servermap.items()}
+            ur_sm = {sh: sorted(ids[srv.get_serverid()] for srv in srvs) for sh, srvs in res.get_sharemap().items()}
+            ur_sv = {ids[srv.get_serverid()]: sorted(shs) for srv, shs in res.get_servermap().items()}
+            want = {"outcome": "success",
+                    "placed": ",".join(map(str, sorted(enc.get_shares_placed()))) or "-",
+                    "sm": sm_tok(final_sm, ";"), "ursm": sm_tok(ur_sm, ";"), "ursv": sm_tok(ur_sv, ";"),
+                    "pushed": str(res.get_pushed_shares()), "preexisting": str(res.get_preexisting_shares())}
+        else:
+            want = {"outcome": "unhappy"}
+        want["_new_visible"] = new_visible
+        want["_alloc"] = rec["alloc"]
+    elif rec["alloc"] is not None and rec["landlords"] is None and outcome == "error:AssertionError":
+        # CHKUploader.set_shareholders asserted: one share number in two trackers (DESIGN 8.9)
+        line = "up %d %s %s - -" % (happy, sm_tok(rec["already"]),
+                                    ",".join("%d:%d" % (sh, p) for sh, p in rec["alloc"]) or "-")
+        want = {"outcome": "assertion"}
+    elif rec["selector_failed"] is not None and outcome == "unhappy":
+        alloc_tok = ",".join("%d:%d" % (sh, p) for sh, p in rec["selector_alloc"]) or "-"
+        line = "up %d %s %s - -" % (happy, sm_tok(rec["selector_failed"]), alloc_tok)
+        want = {"outcome": "unhappy"}
+    return line, want
 
 
 def run_scenario(ctx, s):
@@ -315,51 +367,7 @@ def run_scenario(ctx, s):
                     ctx.disagree("bucket writers left open after the upload ended (model: all closed or aborted)", case,
                                  [p for _, p in g.incoming_files()][:3], "none")
             # ---------------- correspondence with the model
-            line, want = None, None
-
-            def sm_tok(sm, sep=","):
-                return sep.join("%d:%s" % (sh, ".".join(map(str, ps))) for sh, ps in sorted(sm.items())) or "-"
-            new_visible = sorted((i, sh) for sh, srvs in disk.items() for i in srvs if (i, sh) not in pre_present)
-            if rec["landlords"] is not None and rec["alloc"] is not None and outcome in ("success", "unhappy"):
-                enc = encs[-1]
-                if any((p, sh) in pre_present or p in rec["already"].get(sh, ()) for (sh, p) in rec["alloc"]):
-                    ctx.count("server-allocated-a-share-it-already-reported")     # excluded by hypothesis `hdis`
-                pre_tok = sm_tok(rec["already"])
-                alloc_tok = ",".join("%d:%d" % (sh, p) for sh, p in rec["alloc"]) or "-"
-                phases, closes = [], []
-                cur_where = None
-                for (sh, where, kind) in rec["removed"]:
-                    ctx.count("loss-event:" + ("close-" + kind if where == "close" else "write-phase"))
-                    if where == "close":
-                        closes.append("%s%d" % (kind, sh))
-                        continue
-                    if where != cur_where:
-                        phases.append([])
-                        cur_where = where
-                    phases[-1].append(sh)
-                ph_tok = "/".join(".".join(map(str, p)) for p in phases) or "-"
-                line = "up %d %s %s %s %s" % (s.happy, pre_tok, alloc_tok, ph_tok, ",".join(closes) or "-")
-                if outcome == "success":
-                    final_sm = {sh: sorted(ids[p] for p in ps) for sh, ps in enc.servermap.items()}
-                    ur_sm = {sh: sorted(ids[srv.get_serverid()] for srv in srvs) for sh, srvs in res.get_sharemap().items()}
-                    ur_sv = {ids[srv.get_serverid()]: sorted(shs) for srv, shs in res.get_servermap().items()}
-                    want = {"outcome": "success",
-                            "placed": ",".join(map(str, sorted(enc.get_shares_placed()))) or "-",
-                            "sm": sm_tok(final_sm, ";"), "ursm": sm_tok(ur_sm, ";"), "ursv": sm_tok(ur_sv, ";"),
-                            "pushed": str(res.get_pushed_shares()), "preexisting": str(res.get_preexisting_shares())}
-                else:
-                    want = {"outcome": "unhappy"}
-                want["_new_visible"] = new_visible
-                want["_alloc"] = rec["alloc"]
-            elif rec["alloc"] is not None and rec["landlords"] is None and outcome == "error:AssertionError":
-                # CHKUploader.set_shareholders asserted: one share number in two trackers (DESIGN 8.9)
-                line = "up %d %s %s - -" % (s.happy, sm_tok(rec["already"]),
-                                            ",".join("%d:%d" % (sh, p) for sh, p in rec["alloc"]) or "-")
-                want = {"outcome": "assertion"}
-            elif rec["selector_failed"] is not None and outcome == "unhappy":
-                alloc_tok = ",".join("%d:%d" % (sh, p) for sh, p in rec["selector_alloc"]) or "-"
-                line = "up %d %s %s - -" % (s.happy, sm_tok(rec["selector_failed"]), alloc_tok)
-                want = {"outcome": "unhappy"}
+            line, want = model_line(ctx, s.happy, rec, encs[-1] if encs else None, res, outcome, ids, disk, pre_present)
             if rec["alloc"] is not None and outcome in ("success", "unhappy"):
                 # the model's input alphabet: every failing remote write/close on a bucket writer reaches the encoder as a
                 # shareholder-loss event (layout._actually_write / close hand the failure back; encode.py's errbacks run
@@ -388,9 +396,246 @@ def run_scenario(ctx, s):
             g.close()
 
 
+def gen_concurrent(rng):
+    """two uploads of the SAME file (same storage index) on one grid: #1 is frozen somewhere between its allocation and
+    its last close (its node stops: every message of it is held back), #2 runs meanwhile, then #1 meets its fate"""
+    s = Scenario()
+    s.kind = "concurrent"
+    s.num_servers = rng.randrange(2, 8)
+    s.n = rng.randrange(2, 7)
+    s.k = rng.randrange(1, min(s.n, 3) + 1)
+    s.happy = rng.randrange(1, min(s.n, s.num_servers) + 1)
+    s.size = rng.choice([56, 100, 333, 1000])
+    s.maxseg = rng.choice([64, 128, 100000])
+    s.freeze = rng.choice([0, 0, 1, 3, 8, 20, 60, 200])       # scheduler steps #1 still gets after its first incoming share
+    s.fate = rng.choice(["timeout", "disconnect", "complete", "fail"])
+    s.policy = rng.choice(["random", "random", "fifo", "lifo"])
+    s.seed = rng.randrange(1 << 30)
+    s.batch = rng.choice([None, None, 40])
+    return s
+
+
+def run_concurrent(ctx, s):
+    import grid
+    from allmydata.immutable import upload, encode, layout
+    from allmydata.interfaces import UploadUnhappinessError
+    from allmydata.util.consumer import MemoryConsumer
+    from allmydata import uri as _uri
+    data = bytes((i * 7 + s.seed) % 251 for i in range(s.size))
+    conv = b"c06-convergence!"
+    case = dict(kind="concurrent", k=s.k, happy=s.happy, n=s.n, num_servers=s.num_servers, size=s.size, maxseg=s.maxseg,
+                freeze=s.freeze, fate=s.fate, policy=s.policy, seed=s.seed, batch=s.batch)
+    batch_defaults = layout.WriteBucketProxy.__init__.__defaults__
+    assert batch_defaults == (1_000_000,), batch_defaults
+    with grid.Runtime(seed=s.seed, policy=s.policy) as rt:
+        g = grid.Grid(grid.fresh_dir("c06cc"), rt, num_servers=s.num_servers, num_clients=3, k=s.k, happy=s.happy, n=s.n,
+                      max_segment_size=s.maxseg, convergence=conv)
+        try:
+            if s.batch:
+                layout.WriteBucketProxy.__init__.__defaults__ = (s.batch,)
+            ids = {g.serverid(i): i for i in range(s.num_servers)}
+            g2 = grid.Grid(grid.fresh_dir("c06ccref"), rt, num_servers=max(s.n, 1), k=s.k, happy=1, n=s.n,
+                           max_segment_size=s.maxseg)
+            r2 = rt.wait(g2.clients[0].upload(upload.Data(data, convergence=conv)))
+            si = _uri.from_string(r2.get_uri()).get_storage_index()
+            ref = {shnum: share_data(path) for (_, shnum, path) in g2.share_files(si)}
+            g2.close()
+
+            def complete_now():
+                """(server, shnum) of the reader-visible shares (final share directory, not incoming/) with correct bytes"""
+                good, bad = set(), []
+                for (i, shnum, path) in g.share_files(si):
+                    if shnum in ref and share_data(path) == ref[shnum]:
+                        good.add((i, shnum))
+                    else:
+                        bad.append((i, shnum))
+                return good, bad
+
+            # observation hooks; #1 is frozen while #2 runs, so the phase tells whose call it is
+            def fresh_rec():
+                return {"landlords": None, "servermap": None, "removed": [], "selector_failed": None, "already": None,
+                        "alloc": None, "enc": None}
+            recs = {"u1": fresh_rec(), "u2": fresh_rec()}
+            cur = ["u1"]
+            orig_set = encode.Encoder.set_shareholders
+            orig_rm = encode.Encoder._remove_shareholder
+            orig_failed = upload.Tahoe2ServerSelector._failed
+            orig_chk_set = upload.CHKUploader.set_shareholders
+
+            def chk_set(self, upload_trackers, already_serverids, encoder):
+                rec = recs[cur[0]]
+                rec["already"] = {sh: sorted(ids[p] for p in ps) for sh, ps in already_serverids.items()}
+                rec["alloc"] = sorted((sh, ids[t.get_serverid()]) for t in upload_trackers for sh in t.buckets)
+                return orig_chk_set(self, upload_trackers, already_serverids, encoder)
+
+            def set_sh(self, landlords, servermap):
+                rec = recs[cur[0]]
+                rec["landlords"] = True
+                rec["enc"] = self
+                return orig_set(self, landlords, servermap)
+
+            def rm(self, why, shareid, where):
+                for rec in recs.values():
+                    if rec["enc"] is self:
+                        rec["removed"].append((shareid, where, "f"))
+                return orig_rm(self, why, shareid, where)
+
+            def failed(self, msg):
+                rec = recs[cur[0]]
+                pre0 = self.peer_selector.get_sharemap_of_preexisting_shares()
+                rec["selector_failed"] = {sh: sorted(ids[p] for p in ps) for sh, ps in pre0.items()}
+                rec["selector_alloc"] = sorted((sh, ids[t.get_serverid()]) for t in self.use_trackers for sh in t.buckets)
+                return orig_failed(self, msg)
+            encode.Encoder.set_shareholders = set_sh
+            encode.Encoder._remove_shareholder = rm
+            upload.Tahoe2ServerSelector._failed = failed
+            upload.CHKUploader.set_shareholders = chk_set
+
+            def outcome_of(thunk):
+                try:
+                    return "success", thunk()
+                except UploadUnhappinessError:
+                    return "unhappy", None
+                except grid.Stuck:
+                    return "stuck", None
+                except Exception as e:
+                    return "error:" + type(e).__name__, None
+
+            def judge(tag, res, rec, when):
+                """the statement applied to an upload that reported success, against the servers' final share directories"""
+                good, bad = complete_now()
+                layout_now = {}
+                for (i, sh) in good:
+                    layout_now.setdefault(sh, set()).add(i)
+                found_bad = sorted((p, sh) for sh, ps in (rec["already"] or {}).items() for p in ps if (p, sh) not in good)
+                hp = max_matching(layout_now)
+                c2 = dict(case, upload=tag, when=when, layout={sh: sorted(v) for sh, v in layout_now.items()})
+                if found_bad:
+                    ctx.violation("upload %s reported success counting shares as found that are not complete, reader-visible shares "
+                                  "on the server named: %s" % (tag, found_bad), c2, "success-counts-incomplete-shares")
+                if hp < s.happy:
+                    ctx.violation("upload %s reported success but the complete shares on the grid have happiness %d < %d"
+                                  % (tag, hp, s.happy), c2,
+                                  "success-counts-incomplete-shares" if found_bad else "success-but-unhappy")
+                for shnum, servers in res.get_sharemap().items():
+                    for srv in servers:
+                        if (ids[srv.get_serverid()], shnum) not in good:
+                            ctx.violation("a share reported as placed is not a complete share on the named server",
+                                          dict(c2, server=ids[srv.get_serverid()], shnum=shnum), "placed-share-missing")
+                if len(layout_now) >= s.k:
+                    # enough distinct complete shares are there: the cap the upload returned must be readable
+                    node = g.clients[2].create_node_from_uri(res.get_uri())
+                    mc = MemoryConsumer()
+                    try:
+                        rt.wait(node.read(mc, 0, None), horizon=600.0)
+                        got = b"".join(mc.chunks)
+                    except Exception as e:
+                        got = "error:" + type(e).__name__
+                    if got != data:
+                        ctx.violation("the file cannot be read back through the cap of a successful upload", c2,
+                                      "success-but-unreadable")
+            try:
+                # ---- upload #1, frozen after its first share reached incoming/ (+ s.freeze scheduler steps)
+                out1 = []
+                d1 = g.clients[0].upload(upload.Data(data, convergence=conv))
+                d1.addBoth(out1.append)
+                while not out1 and not g.incoming_files() and rt.step():
+                    pass
+                if s.freeze == "close":
+                    # until the first remote close of #1 is about to be delivered (every share written into incoming/)
+                    while not out1 and not any(lbl and lbl[1] == "close" for (lbl, _) in rt.pending) and rt.step():
+                        pass
+                else:
+                    for _ in range(s.freeze):
+                        if out1 or not rt.step():
+                            break
+                while any(c.getTime() <= rt.clock.seconds() for c in rt.clock.getDelayedCalls()):
+                    rt.clock.advance(0)
+                held, rt.pending[:] = list(rt.pending), []
+                frozen = not out1
+                case["frozen"] = frozen
+                case["incoming_at_freeze"] = len(g.incoming_files())
+                before2, _ = complete_now()
+                # ---- upload #2 of the same file by another client
+                cur[0] = "u2"
+                outcome2, res2 = outcome_of(lambda: rt.wait(g.clients[1].upload(upload.Data(data, convergence=conv)), horizon=600.0))
+                case["outcome"] = outcome2
+                case["fired"] = []
+                good2, _ = complete_now()
+                disk2 = {}
+                for (i, sh) in good2:
+                    disk2.setdefault(sh, set()).add(i)
+                if outcome2 == "success":
+                    case["pushed"], case["preexisting"] = res2.get_pushed_shares(), res2.get_preexisting_shares()
+                    judge("#2", res2, recs["u2"], "at report time")
+                elif outcome2 == "stuck":
+                    ctx.violation("upload #2 never completed although every server answered", case, "upload-stuck")
+                elif outcome2 != "unhappy":
+                    ctx.count("outcome-other:" + outcome2)
+                # ---- the fate of upload #1
+                cur[0] = "u1"
+                outcome1, res1 = None, None
+                if frozen:
+                    if s.fate == "timeout":
+                        rt.clock.advance(31 * 60)
+                    elif s.fate == "disconnect":
+                        for w in g.wrappers.values():
+                            w.disconnect()
+                            w.broken = False
+                    else:
+                        if s.fate == "fail":
+                            for w in g.wrappers.values():
+                                w.fault = lambda methname, args, kwargs: "error" if methname in ("write", "close") else None
+                        rt.pending.extend(held)
+                        try:
+                            rt.wait(d1, horizon=600.0)
+                        except grid.Stuck:
+                            outcome1 = "stuck"
+                        for w in g.wrappers.values():
+                            w.fault = None
+                rt.settle()
+                if out1:
+                    from twisted.python.failure import Failure
+                    r = out1[0]
+                    outcome1 = ("unhappy" if r.check(UploadUnhappinessError) else "error:" + r.type.__name__) if isinstance(r, Failure) else "success"
+                    res1 = None if isinstance(r, Failure) else r
+                case["outcome1"] = outcome1
+                if outcome1 == "success" and res1 is not None:
+                    judge("#1", res1, recs["u1"], "at the end")
+                if outcome2 == "success":
+                    judge("#2", res2, recs["u2"], "after the fate of #1")
+                _, bad = complete_now()
+                for (i, sh) in bad:
+                    ctx.violation("a reader-visible share is incomplete or differs from the correct share bytes",
+                                  dict(case, server=i, shnum=sh), "visible-share-not-complete")
+            finally:
+                encode.Encoder.set_shareholders = orig_set
+                encode.Encoder._remove_shareholder = orig_rm
+                upload.Tahoe2ServerSelector._failed = orig_failed
+                upload.CHKUploader.set_shareholders = orig_chk_set
+            # ---- correspondence with the model for #2: `pre` = what it found; in the model these are complete shares
+            line, want = model_line(ctx, s.happy, recs["u2"], recs["u2"]["enc"], res2, outcome2, ids, disk2, before2)
+            ctx.case(repr(sorted((k, repr(v)) for k, v in case.items())))
+            ctx.count("concurrent:#2=%s" % outcome2)
+            ctx.count("concurrent:fate=%s,#1=%s" % (s.fate if frozen else "not-frozen", outcome1))
+            if outcome2 == "success" and res2.get_pushed_shares() == 0:
+                ctx.count("concurrent:#2-success-with-zero-pushed")
+            return case, line, want
+        finally:
+            layout.WriteBucketProxy.__init__.__defaults__ = batch_defaults
+            g.close()
+
+
 def _fixed(name, expect, **kw):
     d = dict(k=1, happy=1, n=3, num_servers=3, size=100, maxseg=64, readonly=[], full=[], pre_servers=[], pre_delete=0.0,
              faults=[], broken=[], policy="fifo", seed=5, batch=None)
+    d.update(kw)
+    return (name, expect, d)
+
+
+def _concurrent(name, expect, **kw):
+    d = dict(kind="concurrent", k=2, happy=3, n=4, num_servers=5, size=600, maxseg=64, freeze="close", fate="timeout",
+             policy="fifo", seed=11, batch=None)
     d.update(kw)
     return (name, expect, d)
 
@@ -415,6 +660,15 @@ CORPUS = [
     _fixed("c-lost-write-still-happy", "success", k=2, n=4, num_servers=4, happy=3, faults=[[3, "write", 1]], batch=40,
            policy="random"),
     _fixed("c-two-lost-still-happy", "success", k=1, n=5, num_servers=5, happy=2, faults=[[0, "write", 0], [4, "close", 0]]),
+    # C06-d: shares found must be COMPLETE shares.  Upload #1 of a file is frozen with every share written into incoming/
+    # but not closed; upload #2 of the same file runs meanwhile; then #1 times out / is disconnected / fails / completes.
+    # (changed tree: allocate_buckets lists the partial shares as alreadygot and the selector counts them: #2 reports
+    # success with pushed=0 although no complete share exists.)
+    _concurrent("d-second-upload-while-first-stalls-timeout", "unhappy", fate="timeout"),
+    _concurrent("d-second-upload-while-first-stalls-disconnect", "unhappy", fate="disconnect", policy="random"),
+    _concurrent("d-second-upload-while-first-fails", "unhappy", fate="fail", num_servers=4, happy=4, k=3),
+    _concurrent("d-second-upload-while-first-completes", "unhappy", fate="complete", policy="lifo", batch=40),
+    _concurrent("d-second-upload-tight-grid", "unhappy", fate="timeout", num_servers=2, n=2, k=1, happy=2),
 ]
 
 
@@ -422,22 +676,27 @@ def run(ctx):
     import common
     common.setup_impl_path()
     if ctx.replay and isinstance(ctx.replay.get("case"), dict) and "num_servers" in ctx.replay["case"]:
-        d = {k: v for k, v in ctx.replay["case"].items() if k not in ("fired", "outcome", "server", "shnum", "layout", "incoming", "corpus", "expect")}
+        d = {k: v for k, v in ctx.replay["case"].items() if k not in ("fired", "outcome", "server", "shnum", "layout", "incoming", "corpus", "expect", "upload", "when",
+                                                                       "frozen", "incoming_at_freeze", "outcome1", "pushed", "preexisting")}
         scen = [scenario_from(d)]
     else:
         corpus_only = bool(os.environ.get("VERIF_CORPUS_ONLY"))
         scen = [scenario_from(dict(d, corpus=name, expect=expect)) for (name, expect, d) in CORPUS]
         if not corpus_only:
             scen += [gen_scenario(ctx.rng) for _ in range(ctx.budget(220, 4000))]
+            # concurrent-upload family (drawn after the single-upload stream, so that stream is unchanged)
+            scen += [gen_concurrent(ctx.rng) for _ in range(ctx.budget(40, 800))]
     lines, wants, cases = [], [], []
     for s in scen:
-        case, line, want = run_scenario(ctx, s)
+        concurrent = getattr(s, "kind", None) == "concurrent"
+        case, line, want = run_concurrent(ctx, s) if concurrent else run_scenario(ctx, s)
         if getattr(s, "corpus", None):
             ctx.count("corpus:" + s.corpus)
-            if case["outcome"] != s.expect or not case["fired"]:
+            exercised = (case["frozen"] and case["incoming_at_freeze"] > 0) if concurrent else bool(case["fired"])
+            if case["outcome"] != s.expect or not exercised:
                 # the fixed scenario no longer exercises its mechanism (or the code decides differently)
                 ctx.disagree("fixed corpus scenario %s: outcome / fault not as on the reference code" % s.corpus, case,
-                             [case["outcome"], len(case["fired"])], [s.expect, "fault fired"])
+                             [case["outcome"], exercised], [s.expect, "mechanism exercised"])
         if line:
             lines.append(line)
             wants.append(want)
